@@ -172,6 +172,39 @@ def r3(ctx):
         ctx.inst(R, f"class:{name}", ok, (ctx.w.bodies.get(FS + name).span if ctx.w.bodies.get(FS + name) else ""),
                  f"{name} flushes exactly {sorted(want)}" if ok else f"{name} flushes {sorted(got) if got is not None else None}, expected {sorted(want)}: "
                  "a log record kind is made durable by the wrong sync (or by none / two)")
+    # the two file-sync siblings must decide each record kind from the same inputs (sync_data is sync_all minus nothing, for data ops)
+    def arm_inputs(fid):
+        b = ctx.w.bodies.get(fid)
+        res = {}
+        if not b:
+            return res
+        for bb, t in b.calls(re.compile(r"^std::iter::Iterator::partition$|Iterator>::partition$")):
+            for cid in closure_args(b, t):
+                cb = ctx.w.bodies.get(cid)
+                if not cb:
+                    continue
+                for sbb, m, els, adt, pl in variant_edges(cb, lambda p: True):
+                    if adt != OP:
+                        continue
+                    for v, e in m.items():
+                        ins = set()
+                        for x in cb.reachable(e[1]):
+                            if not cb.dominated_by_edge(x, e):
+                                continue
+                            for s2 in cb.stmts(x):
+                                for o in [s2["r"].get("o"), s2["r"].get("a"), s2["r"].get("b")]:
+                                    if isinstance(o, dict):
+                                        ins |= {a for a in Slicer(ctx.w).atoms(cb, o) if a.startswith(("arg:", "field:turmoil_fs::PendingOp"))}
+                            tt = cb.term(x)
+                            if tt["k"] in ("call", "switch"):
+                                for o in tt.get("args", []) + ([tt["d"]] if tt["k"] == "switch" else []):
+                                    ins |= {a for a in Slicer(ctx.w).atoms(cb, o) if a.startswith(("arg:", "field:turmoil_fs::PendingOp"))}
+                        res[v] = {re.sub(r"@.*$", "", a) for a in ins}
+        return res
+    ia, ib = arm_inputs(FS + "sync_file"), arm_inputs(FS + "sync_file_data")
+    same = ia == ib and bool(ia)
+    ctx.inst(R, "class:file-sync-siblings-agree", same, "", "sync_file and sync_file_data select their records from the same inputs" if same else
+             f"sync_file and sync_file_data decide differently which records to flush (inputs per kind: {ia} vs {ib}): one of them leaves a synced change in the pending log")
     if sf is not None and dd is not None:
         ctx.inst(R, "class:disjoint", not (sf & dd), "", "file-sync and dir-sync classes are disjoint" if not (sf & dd) else f"{sorted(sf & dd)} is claimed by both sync classes")
     b = ctx.w.bodies.get(FS + "sync_dir")
@@ -244,7 +277,7 @@ def r3(ctx):
             asg = [bb for bb, i, s in fb.all_stmts() if place_last_field(s["p"]) == FS + "pending"]
             ctx.inst(R, f"{fid.rsplit('::', 1)[1]}:applies-and-keeps", bool(ap) and bool(asg), fb.span, "flushed ops applied, the rest kept in the log" if ap and asg else
                      f"{fid} does not apply the flushed ops / keep the remainder")
-    ctx.floor(R, 13)
+    ctx.floor(R, 14)
 
 
 def r4(ctx):
@@ -295,11 +328,26 @@ def r5(ctx):
         for sbb, m, els, adt, pl in variant_edges(fb, lambda p: True):
             if adt == OP and set(m.keys()) == {"Write"}:
                 ok_write = True
+    # persisted content may only grow here: resize is behind `end > content.len()`
+    okg = True
+    rs = []
+    for fb in ctx.w.family(b.id):
+        gt = []
+        for sbb, te, fe, o in guards_on(fb, lambda o: o["k"] == "bin" and o["op"] in ("Gt", "Lt")):
+            gt += te
+        for bb, t in fb.calls(re.compile(r"^std::vec::Vec::(resize|truncate|clear|set_len|drain|split_off)$")):
+            at = Slicer(ctx.w).atoms(fb, t["args"][0])
+            if "field:turmoil_fs::FileData::content" in at:
+                rs.append(t)
+                if not (t["f"].endswith("resize") and gt and fb.dominated_by_any(bb, edges=gt)):
+                    okg = False
+    ctx.inst(R, "torn:never-shrinks", okg and bool(rs), b.span, "a torn write can only extend the durable content (resize behind `end > len`)" if okg and rs else
+             "apply_torn_writes can shrink already durable content (unguarded resize / truncate): synced bytes behind the torn prefix are lost")
     ctx.inst(R, "torn:prefix-slice", ok_slice and ok_min, b.span, "surviving bytes = data[..min(blocks * block_size, len)]" if ok_slice and ok_min else
              "the torn-write slice is not a prefix clipped to min(blocks * block_size, data.len())")
     ctx.inst(R, "torn:only-durable-entries", ok_synced, b.span, "only files with a durable directory entry receive torn data" if ok_synced else "torn writes are applied without the synced_entries test")
     ctx.inst(R, "torn:only-writes", ok_write, b.span, "only Write records are torn" if ok_write else "torn-write pass does not select exactly the Write records")
-    ctx.floor(R, 3)
+    ctx.floor(R, 4)
 
 
 OP_TABLE = {"mkdir_with_mode": "CreateDir", "rmdir": "RemoveDir", "unlink": "RemoveFile", "rename": "Rename", "write_file": "Write",
